@@ -6,13 +6,17 @@
 From Coq Require Import List Arith ZArith Bool.
 Import ListNotations.
 From Acts.Gen Require Import GenState.
-From Acts.Model Require Import Engine Tree.
-From Acts.Proofs Require Import EngineLemmas Findings C05Proofs.
+From Acts.Model Require Import Engine Tree Class.
+From Acts.Proofs Require Import EngineBasics EngineLemmas Findings C05Proofs Progress.
 
 (* full statement (false): forall w ops e, go w ops = Some e -> open_under_completed e = false *)
 Theorem C03_completion_refuted :
   exists w ops e, go w ops = Some e /\ open_under_completed e = true /\ pstate e = SCompleted.
 Proof. exact completed_over_open_refutes. Qed.
+
+(* exactly one terminal event (false): a workflow without steps delivers its completed event twice *)
+Theorem C03_one_terminal_event_refuted : exists w ops e, go w ops = Some e /\ terminal_events e = 2.
+Proof. exact terminal_twice_refutes. Qed.
 
 Theorem C03_partial_root_mirrored : forall site e s, 0 < length (tasks e) -> is_completed s = true -> pstate (set_state site e 0 s) = s.
 Proof. exact root_terminal_mirrored. Qed.
@@ -34,8 +38,20 @@ Theorem C03_partial_nothing_acted_on_after_end :
   forall e i a opts, is_completed (pstate e) = true -> do_action e i a opts = ret_err e.
 Proof. exact ended_rejects. Qed.
 
+(* the hierarchical part on a class of workflows, for every run (proofs/Progress.v; the class of model/Class.v: steps in
+   sequence whose acts are interactive acts, any schedule, complete / submit / remove aimed at any task at any moment): no
+   task is completed while a task whose parent it is is still open, and once the root task is closed every task is.  The
+   invariant: the parent of an open task is running, and a parent has at most one open task at a time. *)
+Theorem C03_hierarchy_sequential_interactive :
+  forall ns c0 ops, frag_nodes ns = true -> forallb frag_op ops = true ->
+  let e := run ns c0 ops in
+  open_under_completed e = false /\ (is_completed (st e 0) = true -> forall j, j < ntasks e -> is_completed (st e j) = true).
+Proof. exact sequential_interactive_hierarchy. Qed.
+
 Print Assumptions C03_completion_refuted.
 Print Assumptions C03_partial_root_mirrored.
 Print Assumptions C03_partial_only_root_mirrored.
 Print Assumptions C03_partial_workflow_and_branch_wait_for_their_children.
 Print Assumptions C03_partial_nothing_acted_on_after_end.
+Print Assumptions C03_hierarchy_sequential_interactive.
+Print Assumptions C03_one_terminal_event_refuted.
